@@ -26,7 +26,7 @@ RULE = ("78 builtin models (multiplicity models at several multiplicities, P@S t
 ASSUMPTIONS = ["bumps is replaced by a minimal stub of bumps.parameter (Parameter.default boxes a value)",
                "2-D data for DirectModel/bumps carry no resolution columns (dqx_data = None) so that no smearing is applied"]
 REQUIRED_MONITORS = ["interfaces_agree", "selection_matches_reference_index", "unknown_name_refused"]
-REQUIRED_BUCKETS = {"quick": ["bumps:after-simulate-data", "bumps:attributes-rebound", "bumps:distribution-type-rebound", "value-exactly-on-declared-limit", "bumps:resolution-replaced", "select:infinite-data-values", "select:limits-equal-to-pixel-radii", "iface:kernel", "iface:DirectModel", "iface:keyword", "iface:sasview", "iface:bumps",
+REQUIRED_BUCKETS = {"quick": ["bumps:after-simulate-data", "bumps:attributes-rebound", "bumps:distribution-type-rebound", "value-exactly-on-declared-limit", "bumps:resolution-replaced", "select:infinite-data-values", "plugin-revised:first-through-sasview", "plugin-revised:first-through-core", "select:limits-equal-to-pixel-radii", "iface:kernel", "iface:DirectModel", "iface:keyword", "iface:sasview", "iface:bumps",
                               "dim:1d", "dim:2d", "multiplicity", "product", "array_distribution", "select:mask",
                               "select:qlimits", "select:nan", "refuse:misspelt", "refuse:foreign", "refuse:pd_suffix", "refuse:bad_attribute",
                               "dispersity-on-vector-element:1d", "refuse:repeated-on-one-object", "sasview:clone-edited",
@@ -57,6 +57,8 @@ def gen_cases(tier, seed):
         cases.append({"id": "select/%03d" % k, "kind": "select", "k": k, "seed": seed, "group": "sel%d" % (k % 16)})
     for k in range(nr):
         cases.append({"id": "refuse/%03d" % k, "kind": "refuse", "k": k, "seed": seed, "group": "ref%d" % (k % 16)})
+    for k in range(2 if tier == "quick" else 12):
+        cases.append({"id": "plugin/%02d" % k, "kind": "plugin", "k": k, "seed": seed, "group": "plug%d" % k, "cost": 3})
     return cases
 
 
@@ -458,6 +460,73 @@ def run_select(case, rec):
     rec.set_shape(("select", name, k % 2, int(np.sum(index))), True)
 
 
+PLUGIN_TEXT = """r\"\"\"plugin edited between loads (verification harness)\"\"\"
+from numpy import inf
+name = "%(name)s"
+title = "plugin"
+description = "plugin"
+category = "shape-independent"
+parameters = [["rg", "Ang", 40, [0, inf], "volume", "size"], ["amp", "", %(amp)r, [0, inf], "", "amplitude"]%(extra)s]
+form_volume = \"\"\"
+    return 1.0;
+\"\"\"
+Iq = \"\"\"
+    return %(k)r*amp*exp(-q*q*rg*rg/3.0)%(term)s;
+\"\"\"
+"""
+
+
+def run_plugin(case, rec):
+    """A plugin model file that is revised between uses in one process: after every revision all interfaces (kernel through
+    core.load_model, DirectModel, the keyword helper, the SasView object through load_custom_model) return the same values,
+    and every interface knows the parameters the file now defines."""
+    from sasmodels import core as sascore, direct_model, sasview_model, data as sdata
+    k = case["k"]
+    rng = core.rng_for(case["seed"], PROP, "plugin", k)
+    d = os.path.join(os.environ.get("RTM_SCRATCH", "/tmp"), "c10plugins")
+    os.makedirs(d, exist_ok=True)
+    name = "rtm10_plug_%d" % k
+    path = os.path.join(d, name + ".py")
+    t0 = 1_700_000_000 + 1000*k
+    q = np.array([0.003, 0.01, 0.03])
+    revs = [dict(k=1.0, amp=2.0, extra="", term=""), dict(k=2.5, amp=2.0, extra="", term=""),
+            dict(k=2.5, amp=3.0, extra=', ["floor", "", 0.5, [0, inf], "", "added term"]', term=" + floor"),
+            dict(k=1.0, amp=2.0, extra="", term="")]
+    first = ["sasview", "core"][k % 2]
+    for step, rv in enumerate(revs):
+        with open(path, "w") as f:
+            f.write(PLUGIN_TEXT % dict(name=name, **rv))
+        os.utime(path, (t0 + 100*step, t0 + 100*step))
+        pars = {"rg": float(rng.uniform(20, 60)), "amp": float(rng.uniform(0.5, 3)), "scale": 1.0, "background": 0.0}
+        if rv["term"]:
+            pars["floor"] = float(rng.uniform(0.1, 1.0))
+        exp = rv["k"]*pars["amp"]*np.exp(-q*q*pars["rg"]**2/3.0) + (pars.get("floor", 0.0))
+        res = {}
+        order = ["sasview", "core", "DirectModel", "keyword"] if first == "sasview" else ["core", "keyword", "sasview", "DirectModel"]
+        for iface in order:
+            try:
+                if iface == "sasview":
+                    m_ = sasview_model.load_custom_model(path)()
+                    for kk, vv in pars.items():
+                        m_.setParam(kk, vv)
+                    res[iface] = np.asarray(m_.evalDistribution(q.copy()), float)
+                elif iface == "core":
+                    res[iface] = np.asarray(direct_model.call_kernel(sascore.load_model(path).make_kernel([q]), dict(pars)), float)
+                elif iface == "DirectModel":
+                    res[iface] = np.asarray(direct_model.DirectModel(sdata.empty_data1D(q), sascore.load_model(path))(**pars), float)
+                else:
+                    res[iface] = np.asarray(direct_model.Iq(path, q, **pars), float)
+            except Exception as exc:
+                res[iface] = repr(exc)[:300]
+        for iface, val in res.items():
+            ok = not isinstance(val, str) and core.close(val, exp, 1e-10, 1e-13)
+            rec.check("interfaces_agree", ok,
+                      None if ok else {"model": "plugin file revised in this process", "revision": step, "definition": rv, "interface": iface,
+                                       "order_of_use": order, "observed": val, "formula_now_in_the_file": exp, "pars": pars})
+        rec.bucket("plugin-revised:first-through-" + first)
+    rec.set_shape(("plugin", k), True)
+
+
 def run_refuse(case, rec):
     """A name the model does not define must raise in every interface, never be ignored."""
     from sasmodels import direct_model, sasview_model, bumps_model
@@ -543,7 +612,7 @@ def run_refuse(case, rec):
 
 def run_case(case, rec):
     worker_init(None, None)
-    {"agree": run_agree, "product": run_product, "select": run_select, "refuse": run_refuse}[case["kind"]](case, rec)
+    {"agree": run_agree, "product": run_product, "select": run_select, "refuse": run_refuse, "plugin": run_plugin}[case["kind"]](case, rec)
 
 
 LEVEL_TEXT = ("The same generated request is issued through five real interfaces (kernel, DirectModel, keyword functions, "
